@@ -54,6 +54,8 @@ type gScen struct {
 	loaderFail bool
 	scanFail   bool
 	rankSeed   uint64 // seed of the imposed enumeration orders
+	zs         int    // number of registered ZERO-SIZE components (types Z0..Z2, all implementing Ifc0): Go gives every
+	                  // pointer to a zero-size value the same address, so identity-by-address conflates them
 	natural    bool   // do not impose any order (Go's own sync.Map order)
 }
 
@@ -126,6 +128,9 @@ func runGraph(sc *gScen) *gRun {
 	comps = append(comps, obs, newDynCompScanner(), newDynCfgScanner())
 	if sc.scanFail {
 		comps = append(comps, &failScanner{})
+	}
+	for i := 0; i < sc.zs && i < len(zeroSizeCtors); i++ {
+		comps = append(comps, zeroSizeCtors[i]())
 	}
 	// names known before the run: ours + the built-ins (from a dry run)
 	var names []string
@@ -469,7 +474,7 @@ func (r *gRun) scenarioLine() string {
 		return 0
 	}
 	var recs []string
-	recs = append(recs, "G", fmt.Sprintf("X %d %d %d", b2i(sc.loaderFail), b2i(sc.scanFail), sc.rankSeed))
+	recs = append(recs, "G", fmt.Sprintf("X %d %d %d %d", b2i(sc.loaderFail), b2i(sc.scanFail), sc.rankSeed, sc.zs))
 	recs = append(recs, "K "+joinInts(r.order))
 	recs = append(recs, "B "+joinInts(r.boot))
 	for i, row := range r.rows {
@@ -575,6 +580,29 @@ func (r *gRun) oracles() []string {
 	}
 	if r.status == "err.unknown" {
 		add("c09-stage", "error outside the four stages: %s", r.errText)
+	}
+	// C09 "a failure at any fault place ends start-up with an error": the start succeeded although a callback that
+	// demonstrably ran (its event is in the log) was told to fail. For the two processor callbacks that log nothing
+	// themselves (PostProcessAfterInstantiation / PostProcessProperties of the observing processor) the witness is the
+	// component's instantiation event: when the start succeeds every processor's callbacks ran for it.
+	if r.status == "ok" {
+		seen := map[string]bool{}
+		for _, e := range r.events {
+			seen[e] = true
+		}
+		for i, n := range r.sc.nodes {
+			for _, fw := range []struct {
+				bit  int
+				ev   string
+				what string
+			}{{fltInst, "n", "PostProcessAfterInstantiation"}, {fltProps, "n", "PostProcessProperties"}, {fltBefore, "b", "PostProcessBeforeInitialization"},
+				{fltAPS, "a", "AfterPropertiesSet"}, {fltInit, "i", "Init"}, {fltAfter, "f", "PostProcessAfterInitialization"},
+				{fltEarly, "e", "GetEarlyBeanReference"}, {fltRun, "r", "Run"}} {
+				if n.flt&fw.bit != 0 && seen[fmt.Sprintf("%s%d", fw.ev, i)] {
+					add("c09-fault-swallowed", "%s of node %d returned an error, yet Run returned nil", fw.what, i)
+				}
+			}
+		}
 	}
 	if r.status != "ok" && r.plainlyResolvable() {
 		add("c02-resolvable-fails", "start-up ended with %s although every point names an existing, different component, nothing is substituted and no fault is injected: %.160s", r.status, strings.ReplaceAll(r.errText, "\n", " "))
@@ -794,6 +822,9 @@ func parseGraphScenario(line string) (*gScen, error) {
 			}
 			sc.loaderFail, sc.scanFail = f[1] == "1", f[2] == "1"
 			sc.rankSeed, _ = strconv.ParseUint(f[3], 10, 64)
+			if len(f) > 4 {
+				sc.zs, _ = strconv.Atoi(f[4])
+			}
 		case "N":
 			if len(f) < 12 {
 				return nil, fmt.Errorf("bad N")
@@ -835,7 +866,7 @@ func graphReplay(scn string, w *hx.Writer) {
 }
 
 func cloneScen(sc *gScen) *gScen {
-	c := &gScen{loaderFail: sc.loaderFail, scanFail: sc.scanFail, rankSeed: sc.rankSeed, natural: sc.natural}
+	c := &gScen{loaderFail: sc.loaderFail, scanFail: sc.scanFail, rankSeed: sc.rankSeed, natural: sc.natural, zs: sc.zs}
 	for _, n := range sc.nodes {
 		m := n
 		m.slots = map[string]string{}
